@@ -33,6 +33,10 @@ pub struct Cell {
     pub seq: Vec<O>,
     /// Failures happen after a complete engine run (`retry-late` / `fatal-late`) instead of before it.
     pub late: bool,
+    /// The cache holds an RRDP archive entry that cannot be read (I/O error), so the clean-up step
+    /// before a retry (`Engine::sanitize`) fails.
+    #[serde(default)]
+    pub sanitize_fails: bool,
 }
 
 pub const COMMANDS: [&str; 7] = ["vrps", "vrps-update-after", "vrps-noupdate", "validate", "update", "server", "server-listen"];
@@ -113,7 +117,43 @@ fn run_cell(bin: &Path, dir: &Path, cell: &Cell) -> Result<Observed, String> {
             .arg("--no-rir-tals")
             .arg("--extra-tals-dir")
             .arg(&tals)
-            .args(["--disable-rsync", "--disable-rrdp"]);
+            .arg("--disable-rsync");
+        if cell.sanitize_fails {
+            // A directory below <cache>/rrdp that cannot be opened. Root ignores permissions, so the
+            // command then runs as nobody. RRDP stays enabled (there are no TALs, nothing is fetched)
+            // so that the RRDP collector takes part in sanitize().
+            use std::os::unix::fs::PermissionsExt;
+            use std::os::unix::process::CommandExt;
+            let d = cache.join("rrdp").join("unreadable.example.net");
+            std::fs::create_dir_all(&d).map_err(|e| e.to_string())?;
+            let open = std::fs::Permissions::from_mode(0o777);
+            for p in [dir, cache.as_path(), tals.as_path(), cache.join("rrdp").as_path()] {
+                std::fs::set_permissions(p, open.clone()).map_err(|e| e.to_string())?;
+            }
+            let mut up = dir.parent();
+            while let Some(p) = up {
+                // scratch directories are created 0700; the unprivileged child must be able to traverse them
+                if let Ok(m) = std::fs::metadata(p) {
+                    if m.permissions().mode() & 0o005 != 0o005 && p.starts_with(crate::erun::scratch_base()) && p != crate::erun::scratch_base() {
+                        let _ = std::fs::set_permissions(p, std::fs::Permissions::from_mode(m.permissions().mode() | 0o055));
+                    }
+                }
+                up = p.parent();
+            }
+            std::fs::set_permissions(&d, std::fs::Permissions::from_mode(0o000)).map_err(|e| e.to_string())?;
+            if unsafe { libc::geteuid() } == 0 {
+                unsafe {
+                    cmd.pre_exec(|| {
+                        if libc::setgroups(0, std::ptr::null()) != 0 || libc::setgid(65534) != 0 || libc::setuid(65534) != 0 {
+                            return Err(std::io::Error::last_os_error());
+                        }
+                        Ok(())
+                    });
+                }
+            }
+        } else {
+            cmd.arg("--disable-rrdp");
+        }
         match cell.cmd.as_str() {
             "vrps" => {
                 cmd.args(["vrps", "-o", "/dev/null"]);
@@ -213,6 +253,9 @@ fn judge(cell: &Cell, obs: &Observed, info: &mut CaseInfo) -> Verdict {
     if cell.late {
         info.class("late_failures");
     }
+    if cell.sanitize_fails {
+        info.class("sanitize_fails");
+    }
     if obs.proc_.watchdog {
         return Verdict::Dropped("watchdog".into());
     }
@@ -264,7 +307,8 @@ fn judge(cell: &Cell, obs: &Observed, info: &mut CaseInfo) -> Verdict {
     if last_failed && code == 0 {
         return Verdict::fail(format!("C32/{}/zero-status-after-failure", cmd), format!("{}: the last run failed but the exit status is 0", describe()));
     }
-    if !last_failed && code != 0 && !cell.is_server() {
+    // (with an unreadable cache entry a successful run's own cache clean-up fails too: not judged)
+    if !last_failed && code != 0 && !cell.is_server() && !cell.sanitize_fails {
         return Verdict::fail(format!("C32/{}/error-status-after-success", cmd), format!("{}: the last run succeeded but the exit status is {}; stderr: {}", describe(), code, truncate(&String::from_utf8_lossy(&obs.proc_.stderr), 300)));
     }
     Verdict::Pass
@@ -295,11 +339,18 @@ fn evaluate(ctx: &Ctx, rep: &mut Report, bin: &Path, base: &Path, cells: &[Cell]
     let mut more_failing = 0u64;
     for (cell, res) in cells.iter().zip(results) {
         match res {
+            Err(e) if cell.sanitize_fails => {
+                // the unprivileged child could not be set up in this environment: these extra cells
+                // are best effort and never make the check inconclusive
+                let tagged = Tagged { sub: "cell".to_string(), case: cell.clone() };
+                rep.record(ctx, &tagged, &CaseInfo::default(), &Verdict::Dropped(format!("unprivileged_child:{}", truncate(&e, 40))));
+            }
             Err(e) => infra.push(format!("{:?}: {}", cell, e)),
             Ok(obs) => {
                 let mut info = CaseInfo::default();
                 let verdict = judge(cell, &obs, &mut info);
-                if let Verdict::Dropped(why) = &verdict {
+                if let (Verdict::Dropped(_), true) = (&verdict, cell.sanitize_fails) {
+                } else if let Verdict::Dropped(why) = &verdict {
                     infra.push(format!("{:?}: {} (exit {:?}, stderr {})", cell, why, obs.proc_.code, truncate(&String::from_utf8_lossy(&obs.proc_.stderr), 300)));
                 }
                 if let Verdict::Fail { key, .. } = &verdict {
@@ -331,7 +382,7 @@ fn evaluate(ctx: &Ctx, rep: &mut Report, bin: &Path, base: &Path, cells: &[Cell]
 
 pub fn run(ctx: &Ctx, rep: &mut Report, replay: Option<&serde_json::Value>) {
     rep.level = "fault_enumeration".into();
-    rep.rule("complete enumeration: all 120 outcome sequences over {ok,retry,fatal} of length 1..=4 x {vrps, validate, update, server, server with RTR+HTTP listeners}, failures injected before the run; plus the same with failures injected after a complete engine run (retry-late/fatal-late; quick: lengths <=2, thorough: all); one-shot commands see the last outcome repeated for ever, the server sees the sequence followed by fatal for ever; each cell is one run of the hooked routinator binary with an empty TAL set; non-trivial = the script contains >= 2 retryable failures within the first 6 runs; distinct by (command, sequence, late)");
+    rep.rule("complete enumeration: all 120 outcome sequences over {ok,retry,fatal} of length 1..=4 x {vrps, validate, update, server, server with RTR+HTTP listeners}, failures injected before the run; plus the same with failures injected after a complete engine run (retry-late/fatal-late; quick: lengths <=2, thorough: all); one-shot commands see the last outcome repeated for ever, the server sees the sequence followed by fatal for ever; plus 24 cells in which the clean-up before a retry (Engine::sanitize) fails too, because the cache holds an RRDP archive entry that cannot be read; each cell is one run of the hooked routinator binary with an empty TAL set; non-trivial = the script contains >= 2 retryable failures within the first 6 runs; distinct by (command, sequence, late)");
     rep.assume("forced outcomes replace the result of ValidationReport::process (verif-hooks); the retry logic under test is the unmodified code in operation.rs");
     rep.assume("a loop is recognised by the hook's run bound (run 7+ forced fatal and flagged), never by elapsed time");
     let bin = match hooked_binary() {
@@ -354,7 +405,7 @@ pub fn run(ctx: &Ctx, rep: &mut Report, replay: Option<&serde_json::Value>) {
         let max_len = if late { ctx.tier.pick(2, 4) } else { 4 };
         for cmd in COMMANDS {
             for seq in all_sequences(max_len) {
-                let cell = Cell { cmd: cmd.to_string(), seq, late };
+                let cell = Cell { cmd: cmd.to_string(), seq, late, sanitize_fails: false };
                 if let Some(key) = known_shape(&cell) {
                     if !ctx.strict && ctx.known_key(key).is_some() {
                         rep.exclude_known(key);
@@ -366,6 +417,14 @@ pub fn run(ctx: &Ctx, rep: &mut Report, replay: Option<&serde_json::Value>) {
             }
         }
     }
+    // the clean-up step before a retry fails as well (unreadable RRDP archive entry in the cache)
+    for late in [false, true] {
+        for cmd in ["vrps", "server", "update"] {
+            for seq in [vec![O::Retry], vec![O::Retry, O::Retry], vec![O::Retry, O::Ok], vec![O::Ok, O::Retry, O::Retry]] {
+                cells.push(Cell { cmd: cmd.to_string(), seq, late, sanitize_fails: true });
+            }
+        }
+    }
     evaluate(ctx, rep, &bin, &base, &cells);
     rep.exhaustive = Some(true);
     rep.extra.insert("space".into(), serde_json::json!({"cells_run": cells.len(), "cells_excluded_as_listed_known_shapes": excluded, "run_bound": RUN_BOUND}));
@@ -374,8 +433,8 @@ pub fn run(ctx: &Ctx, rep: &mut Report, replay: Option<&serde_json::Value>) {
     }
     // one directed representative per known shape, every run
     let directed = vec![
-        Cell { cmd: "vrps".into(), seq: vec![O::Retry, O::Retry, O::Ok], late: false },
-        Cell { cmd: "vrps".into(), seq: vec![O::Retry], late: false },
+        Cell { cmd: "vrps".into(), seq: vec![O::Retry, O::Retry, O::Ok], late: false, sanitize_fails: false },
+        Cell { cmd: "vrps".into(), seq: vec![O::Retry], late: false, sanitize_fails: false },
     ];
     evaluate(ctx, rep, &bin, &base.join("directed"), &directed);
 }
